@@ -625,11 +625,11 @@ type c19Removal struct {
 	inOf        map[string]map[string]bool // callable -> removable input names ("*" = any, for pipelines' cascaded inputs)
 	outOf       map[string]map[string]bool
 	nodeLoss    bool
-	anyPipeIn   bool // inputs of pipeline nodes may disappear (cascade of no-longer-bound inputs)
-	anyPipeOut  bool // outputs of non-top pipeline nodes may disappear (removeUnusedOutputs)
-	top         string
-	ignoreForks bool // do not compare fork roots / pipeline output expressions (removeInput)
-	forked      bool // the graph has map calls: removing a stage input changes which stages fork, and with
+	anyPipeIn   bool            // inputs of pipeline nodes may disappear (cascade of no-longer-bound inputs)
+	anyPipeOut  bool            // outputs of non-top pipeline nodes may disappear (removeUnusedOutputs)
+	tops        map[string]bool // pipelines listed as top calls never lose outputs
+	ignoreForks bool            // do not compare fork roots / pipeline output expressions (removeInput)
+	forked      bool            // the graph has map calls: removing a stage input changes which stages fork, and with
 	// it the split/merge wrapping of downstream expressions; only key sets of inputs are compared then
 }
 
@@ -720,7 +720,7 @@ func c19CompareRemoved(before, after *c19Node, rm *c19Removal) string {
 			for k, bv := range be {
 				av, ok := ae[k]
 				if !ok {
-					if rm.outOf[b.Callable][k] || (rm.anyPipeOut && b.Callable != rm.top && fq != before.Fqid) || (rm.ignoreForks && rm.forked) {
+					if rm.outOf[b.Callable][k] || (rm.anyPipeOut && !rm.tops[b.Callable] && fq != before.Fqid) || (rm.ignoreForks && rm.forked) {
 						continue
 					}
 					return fmt.Sprintf("%s: output %s disappeared", fq, k)
@@ -819,4 +819,24 @@ func c19StripForks(v interface{}) interface{} {
 		return o
 	}
 	return v
+}
+
+// c19GraphOfPipeline resolves the call graph of pipeline `name` called as a
+// top-level call with abstract arguments (what FindUnusedStageOutputs does for
+// each -top-calls entry).
+func c19GraphOfPipeline(ast *syntax.Ast, name string) (n *c19Node, err error) {
+	defer func() {
+		if p := recover(); p != nil {
+			err = fmt.Errorf("PANIC: %v", p)
+		}
+	}()
+	pipe, ok := ast.Callables.Table[name].(*syntax.Pipeline)
+	if !ok || pipe == nil {
+		return nil, fmt.Errorf("no pipeline %s", name)
+	}
+	g, err := ast.MakePipelineCallGraph("", syntax.GenerateAbstractCall(pipe, &ast.TypeTable))
+	if err != nil {
+		return nil, err
+	}
+	return c19Dump(g)
 }
